@@ -9,12 +9,12 @@ CHECKS = {
     "C01": ("property-based testing (proptest tapes) against a validity predicate over the provider tables",
             "exploration",
             "Generated universes/problems/runtimes; every Ok(S) is checked against an independent validity predicate (requirements, constraints, constrains, exclusions, Unknown, locks, one-per-package) in release and debug builds. Exploration is the right level: the property quantifies over all providers and the oracle is exact on each generated case.",
-            "Trusts the table-driven provider and the validity predicate (vcore/src/reference.rs); bounded universes (<=12 packages, <=6 candidates, ids < ~500).",
+            "Trusts the table-driven provider and the validity predicate (vcore/src/reference.rs); random universes are bounded (<=12 packages, <=6 candidates, ids < ~500); stage `huge` adds one package of up to 5000 candidates.",
             "DESIGN.md 3/C01"),
     "C02": ("differential / metamorphic property-based testing against an exhaustive reference resolver",
             "exploration",
             "The verdict (Ok vs Unsolvable) is compared with an exact reference search on every generated case and on semantics-preserving variants (listing order, preference order, ids, hints, schedules, activity parameters).",
-            "Trusts the reference search (self-checked: its solutions pass the validity predicate; variants must keep its verdict). Bounded universes; cases exceeding the reference node budget are skipped and counted.",
+            "Trusts the reference search (self-checked: its solutions pass the validity predicate; variants must keep its verdict). Bounded universes; cases exceeding the reference node budget are skipped and counted. Stage `deep-chain` (constructed dependency paths of up to 16384 packages, soft lists of up to 70000 entries, crash-isolated) compares the outcome with the one the construction fixes.",
             "DESIGN.md 3/C02"),
     "C03": ("property-based testing: edge-truth, reachability and graph-only unsatisfiability (DPLL) oracles on the public ConflictGraph",
             "exploration",
@@ -24,7 +24,7 @@ CHECKS = {
     "C04": ("property-based testing / fuzzing for panics, step budgets, deadlocks and output bounds in debug and release builds",
             "exploration",
             "Feature-interaction universes (hints x locks x exclusions x soft requirements x self references x cycles) are solved and rendered in builds with and without debug assertions; any panic, budget overrun, deadlock or oversized rendering is a violation.",
-            "Termination is decided by poll/step budgets, output bounds and structural deadlock detection; a wall-clock watchdog (60 s per case, typical case < 1 ms) is only a backstop and reports exit 2.",
+            "Termination is decided by poll/step budgets, output bounds and structural deadlock detection; a wall-clock watchdog (60 s per case, typical case < 1 ms) is only a backstop and reports exit 2. Stages run in child processes: a stack overflow or abort of the tested code is attributed to the case and reported (`deep-chain`, release and debug: dependency paths of up to 16384 packages on a 2 MiB stack, soft lists of up to 70000 entries).",
             "DESIGN.md 3/C04"),
     "C05": ("property-based testing against a support-closure oracle",
             "exploration",
@@ -39,7 +39,7 @@ CHECKS = {
     "C07": ("property-based testing on universes that are conflict-free by construction, against a first-choice closure oracle",
             "exploration",
             "Constructive generator guarantees the precondition (re-verified independently per case); solve must return exactly the greedy first-choice closure under any hints and async completion order.",
-            "Trusts first_choice_closure() in vcore/src/reference.rs; cases whose precondition check fails are skipped and counted.",
+            "Trusts first_choice_closure() in vcore/src/reference.rs; cases whose precondition check fails are skipped and counted. Stages `wide` (100-160 packages) and `huge` (one package of up to 6000 candidates) reach the thresholds small universes cannot.",
             "DESIGN.md 3/C07"),
     "C08": ("property-based testing with a reference-resolver precondition (exists a solution containing all first choices)",
             "exploration",
@@ -54,7 +54,7 @@ CHECKS = {
     "C10": ("schedule exploration: harness-owned executor, sampled and exhaustive completion orders, reference verdict",
             "exploration",
             "The harness owns every provider future; sampled schedules on rich cases plus exhaustive DFS over all interleavings of small cases; termination is decided structurally (deadlock = pending, unwoken, nothing outstanding).",
-            "Covers every interleaving a single-threaded executor can produce for the generated cases; exhaustive enumeration is capped per case (cap counted in evidence).",
+            "Covers every interleaving a single-threaded executor can produce for the generated cases; exhaustive enumeration is capped per case (cap counted in evidence). One run per sampled case has the provider stop serving after it signalled cancellation (solve must still return); stage `reentrant-sort` uses a provider whose sort_candidates calls back into the SolverCache.",
             "DESIGN.md 3/C10"),
     "C11": ("schedule exploration with a quiescence invariant evaluated by the harness executor",
             "exploration",
@@ -64,7 +64,7 @@ CHECKS = {
     "C12": ("fault injection: cancellation enumerated over every poll index (transient and sticky) of generated cases",
             "fault_enumeration",
             "For each generated case a dry run counts the cancellation polls; cancellation is then injected at every poll index (quick: up to 48 per case) in two modes; result, carried value and absence of later provider calls are checked.",
-            "The poll sequence of a case is deterministic for a fixed schedule (checked: a poll index that is never reached is reported).",
+            "The poll sequence of a case is deterministic for a fixed schedule (checked: a poll index that is never reached is reported). Stage `wide-root` (thousands of root requirements, 64 sampled indices) reaches polls inside long propagation rounds.",
             "DESIGN.md 3/C12"),
     "C13": ("stateful (history) property testing of solver reuse against the reference resolver",
             "exploration",
@@ -74,12 +74,12 @@ CHECKS = {
     "C14": ("property-based testing: hard-problem reference verdict, validity with the soft exemption, inclusion rule on conflict-free constructions",
             "exploration",
             "Soft lists of all kinds on generated problems: the verdict must be that of the hard problem, results valid, and on conflict-free hard parts every compatible soft solvable (first-choice closure consistent with what was accepted so far) must be included.",
-            "The inclusion rule is only applied where its precondition is verified by the reference closure.",
+            "The inclusion rule is only applied where its precondition is verified by the reference closure (or follows from the construction: stage `expensive-soft` puts pigeonhole problems behind soft solvables, thousands of learnt clauses per solve).",
             "DESIGN.md 3/C14"),
     "C15": ("exhaustive pair enumeration over generated reveal plans, against the reference resolver",
             "exploration",
             "For generated candidate counts (biased to powers of two +-1, up to 130) and reveal plans, every pair i<j (all pairs up to n=64, sampled above) must be Unsolvable and every single must be selectable.",
-            "Reveal plans cover root unions, eager (hinted) encoding and late exposure; not every partition/order is enumerated.",
+            "Reveal plans cover root unions (also with overlapping members), eager (hinted) encoding, late exposure, reveal under a decided sibling and reused solvers; not every partition/order is enumerated.",
             "DESIGN.md 3/C15"),
     "C16": ("differential property-based testing: snapshot provider vs live provider vs reference, round-trip and id-hygiene oracles",
             "exploration",
@@ -94,17 +94,17 @@ CHECKS = {
     "C18": ("stateful property testing of Pool interning against reference maps with held references",
             "exploration",
             "Histories of intern/resolve/lookup calls across chunk boundaries are checked against HashMap/Vec models; raw copies of every returned reference are re-read after later insertions.",
-            "Quick tier: reference stability is checked by re-reading through saved raw pointers. Thorough tier additionally runs the histories inside an AddressSanitizer-instrumented child and under Miri (validation, Stacked Borrows, leak check), so a dangling or moved reference is a reported error rather than luck.",
+            "Quick tier: reference stability is checked by comparing addresses and re-reading through saved raw pointers (stage `bulk`: up to 12000 items of one kind, crash-isolated). Thorough tier additionally runs the histories inside an AddressSanitizer-instrumented child and under Miri (validation, Stacked Borrows, leak check), so a dangling or moved reference is a reported error rather than luck.",
             "DESIGN.md 3/C18"),
     "C19": ("stateful property testing of Mapping against a BTreeMap model",
             "exploration",
             "Generated insert/unset/get/get_mut/iter/serde histories over dense, offset, sparse and chunk-edge id distributions, compared with BTreeMap after every step, in release and debug builds.",
-            "Ids below ~1000 (the structure allocates by max id). Thorough tier adds an AddressSanitizer stage and a Miri tier for the get_unchecked paths.",
+            "Ids below ~1000 in the short histories, up to ~25000 in stage `long` (1500 operations, hundreds of successful removals, iteration compared after each). Thorough tier adds an AddressSanitizer stage and a Miri tier for the get_unchecked paths.",
             "DESIGN.md 3/C19"),
     "C20": ("stateful property testing of SolverCache against the provider tables, incl. re-entrant queries from sort_candidates",
             "exploration",
             "Generated histories of direct cache calls are checked for partition, sort/rotation, idempotence (provider call log unchanged) and availability after every step; full solves with a probing sort_candidates check availability answers at call time.",
-            "Synchronous provider for the direct histories; concurrent duplicates of one key are covered by C10.",
+            "Synchronous provider for the direct histories; unions and abandoned requests (a caller dropped while suspended in the provider, with and without a second caller waiting) go through the harness scheduler; concurrent duplicates of one key are covered by C10.",
             "DESIGN.md 3/C20"),
 }
 
